@@ -37,6 +37,11 @@ func genC18(g *gen) {
 				nv++
 			}
 		}
+		// a shared scalar tensor (rank 0): goroutines use it as the scalar operand of operations on private one-element and
+		// longer tensors, with and without a private reuse tensor - the kernels must never see its memory
+		prefix = append(prefix, fmt.Sprintf("new %s - C", dt))
+		sharedScalar := nv
+		nv++
 		// every shared tensor is formatted once before the goroutines start: the text "running alone"
 		verbs := []string{"%v", "%+v", "%#v", "%.2f", "%d", "%s", "%-v"}
 		for _, v := range shared {
@@ -59,6 +64,15 @@ func genC18(g *gen) {
 			cdt := []string{"u8", "i16", "f32", "f64", "c128"}[gi%5]
 			steps = append(steps, fmt.Sprintf("new %s 2 C", cdt), fmt.Sprintf("bin add fn $%d #k3", lv), fmt.Sprintf("dump $%d", lv+1))
 			lv += 2
+			if k%3 == 0 && dt != "c128" {
+				for _, one := range []string{"1", "1,1", "3"} {
+					steps = append(steps, fmt.Sprintf("new %s %s C", dt, one), fmt.Sprintf("new %s %s C", dt, one),
+						fmt.Sprintf("bin sub fn $%d $%d reuse=$%d", sharedScalar, lv, lv+1), fmt.Sprintf("dump $%d", lv+1),
+						fmt.Sprintf("bin mul %s $%d $%d", []string{"fn", "meth"}[gi%2], lv, sharedScalar), fmt.Sprintf("dump $%d", lv+3),
+						fmt.Sprintf("bin gt fn $%d $%d", sharedScalar, lv), fmt.Sprintf("dump $%d", lv+4), fmt.Sprintf("dump $%d", sharedScalar))
+					lv += 5
+				}
+			}
 			if len(sh) == 3 && isFloat {
 				// every goroutine contracts the shared contiguous rank-3 tensor over its trailing axes (as left operand) and
 				// reads it: the receiver of a contraction must not be reshaped in place, not even temporarily
